@@ -16,13 +16,14 @@ import (
 
 // known-finding ids (see /verif/findings.d/c13.json)
 const (
-	fCond  = "C13-func-in-condition"            // funcmap functions are invisible to v-if / v-else-if / v-show
-	fNest  = "C13-func-under-operator"          // funcmap functions cannot be called inside an operator expression
-	fErrC  = "C13-func-error-in-condition"      // failing function call in a condition is swallowed
-	fBNeg  = "C13-bare-negation"                // {{ !x }} / :a="!x" print nothing
-	fShowN = "C13-vshow-negation-nonbool"       // v-show="!z" hides for falsy non-bool z while v-if="!z" shows
-	fQVar  = "C13-quoted-arg-reinterpreted"     // f("a") passes the value of variable a; " x " -> "x"; "'q'" -> q
-	fBoolN = "C13-arg-variable-named-like-bool" // f(t) / f(f): a variable named t or f is read as the literal true / false
+	fCond  = "C13-func-in-condition"                 // funcmap functions are invisible to v-if / v-else-if / v-show
+	fNest  = "C13-func-under-operator"               // funcmap functions cannot be called inside an operator expression
+	fErrC  = "C13-func-error-in-condition"           // failing function call in a condition is swallowed
+	fBNeg  = "C13-bare-negation"                     // {{ !x }} / :a="!x" print nothing
+	fShowN = "C13-vshow-negation-nonbool"            // v-show="!z" hides for falsy non-bool z while v-if="!z" shows
+	fQVar  = "C13-quoted-arg-reinterpreted"          // f("a") passes the value of variable a; " x " -> "x"; "'q'" -> q
+	fNegEr = "C13-func-error-after-leading-negation" // {{ !t || fail(a) }} prints a value instead of failing
+	fBoolN = "C13-arg-variable-named-like-bool"      // f(t) / f(f): a variable named t or f is read as the literal true / false
 )
 
 type gen struct {
@@ -43,7 +44,7 @@ func (g *gen) paths(t *rapid.T, base, fnNamed []string) []string {
 func newGen(rec *ev.Rec) *gen {
 	f := kf.Load()
 	g := &gen{rec: rec, open: map[string]bool{}}
-	for _, id := range []string{fCond, fNest, fErrC, fBNeg, fShowN, fQVar, fBoolN} {
+	for _, id := range []string{fCond, fNest, fErrC, fBNeg, fShowN, fQVar, fBoolN, fNegEr} {
 		g.open[id] = f.Open(id)
 	}
 	return g
@@ -781,7 +782,41 @@ func (g *gen) genErrCase(t *rapid.T) Case {
 		}
 	}
 	c.Pos = g.errPositions(callForm)
+	if callForm {
+		c.Wrap, c.WrapX = wrapFor(env, pick(t, "wrap", []string{"", "", "not", "notparen", "or", "and"}), rapid.IntRange(0, 9).Draw(t, "wrapx"))
+		c.Pos = g.wrapPositions(c)
+	}
 	return c
+}
+
+// wrapPositions removes the value positions of `!x || f(…)` / `!x && f(…)` error cases while
+// C13-func-error-after-leading-negation is open (conditions still have to fail).
+func (g *gen) wrapPositions(c Case) []string {
+	if (c.Wrap == "or" || c.Wrap == "and") && g.open[fNegEr] {
+		g.excluded(fNegEr)
+		return without(c.Pos, valuePos...)
+	}
+	return c.Pos
+}
+
+var errWraps = []string{"not", "notparen", "or", "and"}
+
+// wrapFor picks the left operand X of `!X || f(…)` / `!X && f(…)`: a bool path that is true
+// (for ||) or false (for &&) in env, so that the failing call is not skipped by a short circuit.
+func wrapFor(env map[string]any, wrap string, k int) (string, string) {
+	if wrap != "or" && wrap != "and" {
+		return wrap, ""
+	}
+	var xs []string
+	for _, p := range boolPaths {
+		if v, _ := resolve(env, p); v == (wrap == "or") {
+			xs = append(xs, p)
+		}
+	}
+	if len(xs) == 0 {
+		return "not", ""
+	}
+	return wrap, xs[k%len(xs)]
 }
 
 // ---------------------------------------------------------------- classification
@@ -937,6 +972,9 @@ func classify(c Case) (bool, []string) {
 			form = "call"
 		}
 		cls = append(cls, "C:"+c.Why, "C:form="+form, fmt.Sprintf("C:stages=%d", len(c.Stages)))
+		if c.Wrap != "" {
+			cls = append(cls, "C:under "+map[string]string{"not": "!f()", "notparen": "!(f())", "or": "!x || f()", "and": "!x && f()"}[c.Wrap], "C:"+c.Why+" under operator")
+		}
 		if c.Why == "conversion" {
 			txt := c.Text()
 			for _, b := range append(append([]string{}, badNumPaths[:6]...), badNumLits[:6]...) {
